@@ -4,7 +4,7 @@ import random
 from wbgen import Gen
 
 
-def area_world(rng, spherical=None, cross=None, nfeat=None, temp_allow=("uniform", "linear", "adiabatic", "chapman")):
+def area_world(rng, spherical=None, cross=None, nfeat=None, temp_allow=("uniform", "linear", "adiabatic", "chapman"), plumes=0.25):
     g = Gen(rng)
     w, sph = g.base_world(spherical, cross)
     n = rng.choice([0, 1, 2, 2, 3, 4]) if nfeat is None else nfeat
@@ -24,11 +24,14 @@ def area_world(rng, spherical=None, cross=None, nfeat=None, temp_allow=("uniform
                 c = (round(c0[0] + rng.uniform(-2e5, 2e5)), round(c0[1] + rng.uniform(-2e5, 2e5)))
         else:
             c = None
-        w["features"].append(g.area_feature("f%d" % i, sph, centre=c, temp_allow=temp_allow))
+        if plumes and rng.random() < plumes:
+            w["features"].append(g.plume("f%d" % i, sph, centre=c))
+        else:
+            w["features"].append(g.area_feature("f%d" % i, sph, centre=c, temp_allow=temp_allow))
     return w, sph
 
 
-def any_world(rng, spherical=None, cross=None):
+def any_world(rng, spherical=None, cross=None, nfeat=None):
     """worlds with every feature type (used by oracles that do not need the model).
     Until the line features and plumes have generators this is the area-feature family."""
-    return area_world(rng, spherical, cross)
+    return area_world(rng, spherical, cross, nfeat)
